@@ -139,6 +139,8 @@ func (c *caComp) Run(args []string) string {
 	c.events = nil
 	atoi := func(s string) int64 { v, _ := strconv.ParseInt(s, 10, 64); return v }
 	switch args[0] {
+	case "par":
+		return caPar(args)
 	case "new":
 		var opts []cache.Option
 		if thr := atoi(args[1]); thr != 0 {
@@ -305,6 +307,7 @@ type caGen struct {
 	seq     []string
 	atomicApart bool
 	atLeaves []caLeaf // (su) leaves below which a subscription asked for a member of the atomic container
+	org     string // the origin name of this sequence: "oc", or the collector's default "openconfig" (seeded change c06_seed7 special-cased it)
 	allowPO bool // path-level origins allowed (outside the cache's stated contract: no replay monitor)
 }
 
@@ -392,6 +395,7 @@ func leafKey(target string, l caLeaf) string {
 
 func (g *caGen) genLeafUniverse() {
 	r := g.r
+	g.org = []string{"oc", "openconfig"}[r.Intn(2)]
 	n := 4 + r.Intn(6)
 	for i := 0; i < n; i++ {
 		depth := 1 + r.Intn(3)
@@ -411,7 +415,7 @@ func (g *caGen) genLeafUniverse() {
 		}
 		origin := ""
 		if r.Intn(3) == 0 {
-			origin = "oc"
+			origin = g.org
 		}
 		if es[0].name == "" {
 			// input restriction (DESIGN C03/C14): the first index element is non-empty. Reset
